@@ -1102,6 +1102,8 @@ impl Task {
                 });
 
                 if is_updated {
+                    // keep the stored task in step with the changed data
+                    let _ = t.runtime.cache().upsert(t);
                     break;
                 }
             }
